@@ -45,8 +45,12 @@ type Plan struct {
 	// Crash: kill states at every I/O point of every operation (and torn
 	// writes between two I/O points), each reopened, judged and continued with
 	// the next operations of the plan ("second life")
-	Crash     bool   `json:"crash,omitempty"`
-	CrashSeed uint64 `json:"crash_seed,omitempty"`
+	// DiskFull: while operation number DiskFullOp (a store) runs, the file
+	// cannot grow beyond DiskFullAt bytes (RLIMIT_FSIZE): the store fails
+	DiskFullOp int    `json:"disk_full_op,omitempty"`
+	DiskFullAt int64  `json:"disk_full_at,omitempty"`
+	Crash      bool   `json:"crash,omitempty"`
+	CrashSeed  uint64 `json:"crash_seed,omitempty"`
 }
 
 type Engine struct{}
@@ -196,6 +200,19 @@ func (Engine) Generate(prop, tier string, seed, run uint64) json.RawMessage {
 			p.Ops = append(p.Ops, Op{K: "reset"})
 		default:
 			p.Ops = append(p.Ops, Op{K: "reopen"})
+		}
+	}
+	if r.IntN(3) == 0 {
+		// disk full during one of the stores (not the first: there must be something to damage)
+		var stores []int
+		for i, op := range p.Ops {
+			if op.K == "store" && i > 0 {
+				stores = append(stores, i)
+			}
+		}
+		if len(stores) > 0 {
+			p.DiskFullOp = 1 + stores[r.IntN(len(stores))]
+			p.DiskFullAt = int64(8 + r.IntN(1500))
 		}
 	}
 	return sim.MustJSON(p)
@@ -421,7 +438,35 @@ func (Engine) Execute(planJSON json.RawMessage, scratch string) (res sim.RunResu
 			pre, _ := os.ReadFile(path)
 			prevModel := model[op.ID]
 			_, hadPrev := model[op.ID]
-			if err := c.SetData(op.ID, base, data); err != nil {
+			full := p.DiskFullOp == oi+1
+			if full {
+				simrt.SetFsizeLimit(p.DiskFullAt)
+			}
+			err := c.SetData(op.ID, base, data)
+			if full {
+				simrt.SetFsizeLimit(0)
+			}
+			if err != nil && full {
+				// the disk was full: the store failed and said so. Every other stream
+				// must still read as before; this stream as before or not at all.
+				res.Count("fault_disk_full_during_store", 1)
+				endCrash()
+				cr = nil
+				m2 := copyModel(model)
+				if !c.Contains(op.ID) {
+					delete(m2, op.ID)
+				}
+				if msg := compare(c, m2, what+" (the store failed: disk full)"); msg != "" {
+					viol("diskfull-" + msg)
+					if res.Viol != nil {
+						return
+					}
+					knownDead = true
+				}
+				model = m2
+				continue
+			}
+			if err != nil {
 				viol(fmt.Sprintf("store-error|%s: SetData(%d): %v", what, op.ID, err))
 				return
 			}
